@@ -39,7 +39,8 @@ class CppEndpoint:
 
     def copy(self, proto: str, infmt: str, outfmt: str, data: bytes, **kw) -> Result:
         p = self.m.cpp_copy(proto, infmt, outfmt, data, flavor=self.flavor, bufs=kw.get("bufs", self.bufs),
-                            version=kw.get("version"), empty_batches=self.empty_batches, in_file=kw.get("in_file"))
+                            version=kw.get("version"), empty_batches=self.empty_batches, in_file=kw.get("in_file"),
+                            out_file=kw.get("out_file"), first=kw.get("first"))
         return Result(p.rc, p.sig, p.out, p.stderr, p.timed_out, p.cpu_exceeded, cpp_errclass(p.stderr))
 
 
